@@ -868,9 +868,9 @@ def diff_helper(func, arr, *args, **kwargs):
                 "Quantities with units of Fahrenheit or Celsius "
                 "cannot be multiplied, divided, subtracted or added."
             )
-        ret_units = delta_degC
-    else:
-        ret_units = u
+    # differences of readings on an offset-free scale (K, R, mK, delta_degF, ...)
+    # are on that same scale
+    ret_units = u
     return func._implementation(np.asarray(arr), *args, **kwargs) * ret_units
 
 
